@@ -15,6 +15,7 @@ from .. import codetf_schema, runspace, seeds
 from ..common import Check
 
 LEVEL = "model_checking"
+RULE = ('cases = MC_Run behaviours replayed and run vectors whose report is rebuilt from the trace; non-trivial = distinct scenario labels with at least one codemod result')
 CLAUSES = ("ReportBuilt:", "inv:C15", "FileEnd:malformed-changeset", "FileEnd:failed-and-changed", "Deps:malformed-changeset",
            "ReportWritten:", "RunEnd:uncaught", "CodemodEnd:exception")
 
